@@ -44,12 +44,18 @@ ABSTRACT = {"ofp_header"}
 
 # ------------------------------------------------------------------------------------------------ spec -> object
 
+# string fields of the standard's structures (checked against the zstr fields of Spec/OF10Layouts.lean in setup)
+ZS_FIELDS = {"name": None, "mfr_desc": None, "hw_desc": None, "sw_desc": None, "serial_num": None, "dp_desc": None}
+ZS_WIDTH = {}         # class -> {field: width}, filled in setup from the parsed spec text
+
+
 class Builder:
     def __init__(self, of, nx, addresses):
         self.of, self.nx = of, nx
         self.EthAddr, self.IPAddr, self.IPAddr6 = addresses.EthAddr, addresses.IPAddr, addresses.IPAddr6
         self.refs = {}
         self.alt = False
+        self.zs_bytes = False          # hand the string fields to the library as bytes (latin-1: one byte per character)
 
     def cls(self, name):
         c = getattr(self.of, name, None)
@@ -80,10 +86,30 @@ class Builder:
             elif k == "nw_addr": v = self.IPAddr(bytes.fromhex(v))
             elif k in ("nw_src", "nw_dst") and isinstance(v, list): v = (self.IPAddr(bytes.fromhex(v[0])), v[1])
             elif k in ("data", "body") and isinstance(v, str): v = bytes.fromhex(v)
+            elif k in ZS_FIELDS and isinstance(v, str) and self.zs_bytes and all(ord(ch) < 256 for ch in v): v = bytes(ord(ch) for ch in v)
             elif isinstance(v, int) and not isinstance(v, bool) and v > 256: v = int(str(v))
             elif isinstance(v, list): v = list(v)              # never hand the spec's own (empty) list to the library
             kw[k] = v
         return kw
+
+    def learn_spec(self, d):
+        """a flow_mod_spec from its description {src: [field, NXM, ofs] | [imm, value], dst: [match|load, NXM, ofs] | [output],
+        n_bits, route}: through the keyword front end `flow_mod_spec.new` (route "kw"), or from the part classes."""
+        nx = self.nx
+        n = d["n_bits"]; src, dst = d["src"], d["dst"]
+        imm = None if src[0] != "imm" else int(src[1]).to_bytes(((n + 15) // 16) * 2, "big")
+        if d.get("route") == "kw":
+            kw = {"n_bits": n}
+            if src[0] == "field": kw.update(field=getattr(nx, src[1]), src_ofs=src[2], src_n_bits=n)
+            else: kw.update(immediate=imm, src_n_bits=n)
+            if dst[0] == "output": kw["output"] = True
+            else: kw.update({dst[0]: getattr(nx, dst[1]), "dst_ofs": dst[2], "dst_n_bits": n})
+            return nx.flow_mod_spec.new(**kw)
+        so = nx.nx_learn_src_field(getattr(nx, src[1]), src[2], n) if src[0] == "field" else nx.nx_learn_src_immediate(imm, n)
+        if dst[0] == "output": do = nx.nx_learn_dst_output()
+        else: do = {"match": nx.nx_learn_dst_match, "load": nx.nx_learn_dst_load}[dst[0]](getattr(nx, dst[1]), dst[2], n)
+        if d.get("route") == "infer": return nx.flow_mod_spec(so, do)          # n_bits taken from the parts
+        return nx.flow_mod_spec(so, do, n)
 
     def build(self, s):
         if isinstance(s, list): return [self.build(x) for x in s]
@@ -97,6 +123,7 @@ class Builder:
             m = self.nx.nx_match()
             for p in s["nx_match"]: m.append(self.build(p))
             return m
+        if "lspec" in s: return self.learn_spec(s["lspec"])
         if "fms" in s:                                   # flow_mod_spec.new(**kw)
             return self.nx.flow_mod_spec.new(**{k: self.build(v) for k, v in s["fms"].items()})
         if "eth" in s: return self.EthAddr(bytes.fromhex(s["eth"]))
@@ -191,6 +218,108 @@ def g_nx_match(rng, n=None, canonical=False):
     return {"nx_match": [g_nxm(rng, nm, canonical=canonical) for nm in names]}
 
 
+# ---- string fields: every class of character, as str and as bytes
+ZS_ASCII = "abcxyz019-_ ~"
+ZS_LATIN = "\u0080\u009f\u00a0\u00e9\u00fc\u00df\u00f1\u00ff\u00c0\u00b5"      # U+0080..U+00FF: one byte each in the field
+ZS_WIDE = "\u0100\u0142\u03a9\u20ac\u65e5\U0001f600\ufeff"                       # beyond U+00FF: no one-byte form
+ZS_MODES = ["ascii", "latin", "latin1", "fill_latin", "fill_ascii", "wide", "wide_fill", "nul", "nul_end", "nul_start", "long", "long_latin"]
+
+
+def g_zs(rng, n, mode=None):
+    """a value for a zero-padded string field of n bytes.  The field holds one byte per character (the reader decodes
+    latin-1), so a string is representable iff every character is U+0001..U+00FF and there are at most n of them."""
+    mode = mode or rng.choice(ZS_MODES)
+    body = lambda k, alpha: "".join(rng.choice(alpha) for _ in range(k))
+    if mode == "ascii": return body(rng.randint(0, n), ZS_ASCII)
+    if mode == "latin": return body(rng.randint(1, n), ZS_ASCII + ZS_LATIN + ZS_LATIN)
+    if mode == "latin1": return body(rng.randint(0, n - 1), ZS_ASCII) + rng.choice(ZS_LATIN)
+    if mode == "fill_latin": return body(n - 1, ZS_ASCII + ZS_LATIN) + rng.choice(ZS_LATIN)
+    if mode == "fill_ascii": return body(n, ZS_ASCII)
+    if mode == "wide":
+        k = rng.randint(0, max(0, n // 2 - 2)); return body(k, ZS_ASCII + ZS_LATIN) + rng.choice(ZS_WIDE) + body(rng.randint(0, 1), ZS_ASCII)
+    if mode == "wide_fill": return body(n - 1, ZS_ASCII) + rng.choice(ZS_WIDE)
+    if mode == "nul": return body(rng.randint(1, n // 2), ZS_ASCII + ZS_LATIN) + "\0" + body(rng.randint(1, n // 2 - 1), ZS_ASCII + ZS_LATIN)
+    if mode == "nul_end": return body(rng.randint(0, n - 1), ZS_ASCII) + "\0"
+    if mode == "nul_start": return "\0" + body(rng.randint(1, n - 1), ZS_ASCII)
+    if mode == "long": return body(n + rng.choice([1, 1, 2, 17]), ZS_ASCII)
+    if mode == "long_latin": return body(n, ZS_ASCII) + rng.choice(ZS_LATIN)
+    raise KeyError(mode)
+
+
+def zs_unfit(spec):
+    """why a spec's string field has no representation in its field (None: all representable)"""
+    if isinstance(spec, list):
+        for x in spec:
+            r = zs_unfit(x)
+            if r: return r
+        return None
+    if not isinstance(spec, dict): return None
+    w = ZS_WIDTH.get(spec.get("cls"), {})
+    for part in ("kw", "set"):
+        for k, v in spec.get(part, {}).items():
+            if k in w and isinstance(v, str):
+                if any(ord(ch) > 255 for ch in v): return "%s has a character beyond U+00FF" % k
+                if "\0" in v: return "%s contains a NUL" % k
+                if len(v) > w[k]: return "%s has %d characters, the field has %d bytes" % (k, len(v), w[k])
+            else:
+                r = zs_unfit(v)
+                if r: return r
+    for k in ("append",):
+        for v in spec.get(k, {}).values():
+            r = zs_unfit(v)
+            if r: return r
+    return None
+
+
+def spice_strings(rng, spec, p=0.35):
+    """replace string fields anywhere inside a spec by richer ones"""
+    if isinstance(spec, list):
+        for x in spec: spice_strings(rng, x, p)
+    elif isinstance(spec, dict):
+        w = ZS_WIDTH.get(spec.get("cls"), {})
+        for k, v in spec.get("kw", {}).items():
+            if k in w and isinstance(v, str):
+                if rng.random() < p: spec["kw"][k] = g_zs(rng, w[k])
+            else: spice_strings(rng, v, p)
+    return spec
+
+
+def zs_case(rng, spec):
+    """an obj case over a spec with string fields: as str or as bytes; unrepresentable strings must be refused"""
+    c = {"kind": "obj", "spec": spec}
+    if rng.random() < 0.4: c["zs"] = "bytes"
+    why = zs_unfit(spec)
+    if why: c["expect"] = "raise"; c["why"] = why
+    return c
+
+
+# ---- nx_action_learn: flow_mod_specs from a description (what the oracle lays out independently)
+LEARN_FIELDS = ["NXM_OF_VLAN_TCI", "NXM_OF_ETH_SRC", "NXM_OF_ETH_DST", "NXM_OF_IN_PORT", "NXM_NX_TUN_ID", "NXM_OF_IP_SRC", "NXM_NX_IPV6_SRC"] + \
+               ["NXM_NX_REG%d" % i for i in range(8)]
+
+
+# nicira-ext.h: NXM_HEADER(vendor, field, length) = vendor << 16 | field << 9 | hasmask << 8 | length
+NXM_SPEC = {"NXM_OF_IN_PORT": (0, 0, 2), "NXM_OF_ETH_DST": (0, 1, 6), "NXM_OF_ETH_SRC": (0, 2, 6), "NXM_OF_VLAN_TCI": (0, 4, 2),
+            "NXM_OF_IP_SRC": (0, 7, 4), "NXM_NX_TUN_ID": (1, 16, 8), "NXM_NX_IPV6_SRC": (1, 19, 16)}
+NXM_SPEC.update({"NXM_NX_REG%d" % i: (1, i, 4) for i in range(16)})
+
+
+def g_lspec(rng, n_bits=None, src=None, dst=None, route=None):
+    src = src or rng.choice(["field", "imm", "imm"])
+    dst = dst or rng.choice(["match", "load", "output"])
+    n = n_bits if n_bits is not None else rng.choice([rng.randint(1, 64), rng.randint(1, 64), rng.randint(1, 128), rng.choice([1, 8, 9, 16, 17, 1023])])
+    ofs = lambda: rng.choice([0, 0, 1, rng.randint(0, 127), 0xffff])
+    s = ["field", rng.choice(LEARN_FIELDS), ofs()] if src == "field" else ["imm", rng.choice([0, 1, (1 << n) - 1, rng.getrandbits(n)])]
+    d = ["output"] if dst == "output" else [dst, rng.choice(LEARN_FIELDS), ofs()]
+    return {"lspec": {"src": s, "dst": d, "n_bits": n, "route": route or rng.choice(["kw", "parts", "parts", "infer"])}}
+
+
+def g_learn(rng, specs=None):
+    if specs is None: specs = [g_lspec(rng) for _ in range(rng.randint(0, 5))]
+    return {"cls": "nx_action_learn", "kw": dict(table_id=rint(rng, U8), hard_timeout=rint(rng, U16), idle_timeout=rint(rng, U16), priority=rint(rng, U16),
+            cookie=rint(rng, U64), flags=rint(rng, U16), fin_idle_timeout=rint(rng, U16), fin_hard_timeout=rint(rng, U16)), "append": {"spec": specs}}
+
+
 def g_nx_action(rng, kind=None):
     kinds = ["controller", "push_mpls", "pop_mpls", "mpls_label", "mpls_tc", "resubmit", "resubmit_table", "set_tunnel",
              "set_tunnel64", "fin_timeout", "exit", "dec_ttl", "reg_move", "reg_load", "reg_load_entry", "output_reg",
@@ -215,6 +344,7 @@ def g_nx_action(rng, kind=None):
     if k == "output_reg": return {"cls": "nx_output_reg", "kw": dict(reg=reg(), nbits=rng.randint(1, 32), offset=rng.choice([0, rng.randint(0, 31)]), max_len=rint(rng, U16))}
     if k == "bundle": return {"cls": "nx_action_bundle", "kw": dict(algorithm=rng.randint(0, 1), fields=rng.randint(0, 1), basis=rint(rng, U16), slaves=[rng.randint(1, 100) for _ in range(rng.randint(0, 5))])}
     if k == "bundle_load": return {"cls": "nx_action_bundle", "kw": dict(load=True, dst=reg(), nbits=rng.randint(1, 32), slaves=[rng.randint(1, 100) for _ in range(rng.randint(0, 5))])}
+    if k == "learn" and rng.random() < 0.7: return g_learn(rng)
     if k == "learn":
         specs = []
         for _ in range(rng.randint(0, 4)):
@@ -406,7 +536,8 @@ class C01(Check):
                 "Pox.C01.pack_eq_unpack", "Pox.C01.pack_eq_spec", "Pox.C01.len_eq",
                 "Pox.C01.registry_messages", "Pox.C01.registry_actions", "Pox.C01.registry_stats",
                 "Pox.C01.registry_queue_props", "Pox.C01.registry_total", "Pox.C01.roundtrip", "Pox.C01.roundtrip_regular",
-                "Pox.C01.vendor_action_in_list", "Pox.Layout.vendor_as_generic", "Pox.Spec.NX.sizes_ok", "Pox.Spec.NX.matchPad_law", "Pox.C01.actions_stream",
+                "Pox.C01.vendor_action_in_list", "Pox.Layout.vendor_as_generic", "Pox.Spec.NX.sizes_ok", "Pox.Spec.NX.matchPad_law",
+                "Pox.Spec.NX.action_sizes_ok", "Pox.Spec.NX.immBytes_law", "Pox.Spec.NX.learnSpecHeader_inj", "Pox.C01.actions_stream",
                 "Pox.C01.packet_out_roundtrip", "Pox.C01.flow_mod_data_roundtrip",
                 "Pox.C01.stats_reply_list_roundtrip", "Pox.C01.stats_body_roundtrip", "Pox.C01.nx_flow_mod_roundtrip",
                 "Pox.C01.nxt_packet_in_roundtrip", "Pox.C01.match_roundtrip", "Pox.C01.match_roundtrip_fm", "Pox.C01.match_nonnormal_witness", "Pox.C01.nxm_roundtrip", "Pox.C01.nx_match_roundtrip",
@@ -470,6 +601,10 @@ class C01(Check):
         self.spec = spec_parser.load(os.path.join(common.LEAN, "PoxModel", "Spec", "OF10Layouts.lean"))
         self.nxspec = spec_parser.load(os.path.join(common.LEAN, "PoxModel", "Spec", "NXLayouts.lean"), base=self.spec)
         self._rec_cache = {}
+        for cname, (fixed, _) in self.spec["table"].items():          # string fields and their widths: from the standard's structures
+            w = {f[1]: f[2] for f in fixed if f[0] == "zstr"}
+            if w: ZS_WIDTH[cname] = w
+        assert {k for w in ZS_WIDTH.values() for k in w} == set(ZS_FIELDS), ZS_WIDTH
         self.anchors = self.compute_anchors()
 
     CODEC_METHODS = {"pack", "unpack", "_pack_body", "_unpack_body", "__len__", "_body_length", "unpack_new", "_unpack_header",
@@ -628,11 +763,24 @@ class C01(Check):
         if kind == "reuse": return self.impl_reuse(case)
         if kind == "seq": return self.impl_seq(case)
         if kind == "conv": return self.impl_conv(case)
+        self.B.zs_bytes = case.get("zs") == "bytes"
+        try: return self.impl_obj(case)
+        finally: self.B.zs_bytes = False
+
+    def impl_obj(self, case):
         obj = self.B.build(case["spec"])
         out = {"cls": type(obj).__name__}
+        want = obj
+        if self.B.zs_bytes:              # string fields given as bytes: the decoded object is compared with the str form
+            self.B.zs_bytes = False
+            try:
+                want = self.B.build(case["spec"])
+                try: want.pack()                      # the same life as obj: packed once
+                except Exception: pass
+            finally: self.B.zs_bytes = True
         # the standard's layout of the object AS CONSTRUCTED, from a twin that is never packed (pack() may rewrite attributes;
         # the only rewrite the property allows is listed in spec_bytes: ofp_action_output.max_len for ports other than CONTROLLER)
-        try: out["spec_pre"] = self.spec_bytes(self.B.build(case["spec"]), constructed=True)
+        try: out["spec_pre"] = self.spec_bytes(self.B.build(case["spec"]), constructed=True, desc=case["spec"])
         except Exception: out["spec_pre"] = None
         try:
             b = obj.pack()
@@ -640,6 +788,7 @@ class C01(Check):
             out["pack"] = None; out["outcome"] = "raise:" + type(e).__name__; out["where"] = "pack"; out["msg"] = str(e)[:120]
             try: out["rec"] = self.rec_for_model(obj)
             except Exception: out["rec"] = None
+            if self.B.zs_bytes and "is not string" in out["msg"]: out["rec"] = None     # a refusal by type: the model has values, not types
             self._rec_cache[id(case)] = out["rec"]
             return out
         out["pack"] = b.hex()
@@ -649,13 +798,19 @@ class C01(Check):
         except Exception as e: out["hdr"] = "raise:" + type(e).__name__
         try: out["rec"] = self.rec_for_model(obj)
         except Exception as e: out["rec"] = None; out["rec_error"] = "%s: %s" % (type(e).__name__, e)
-        out["spec"] = self.spec_bytes(obj)
+        out["spec"] = self.spec_bytes(obj, desc=case["spec"])
         self._rec_cache[id(case)] = out["rec"]
         try:
             off, o2 = self.do_unpack(obj, b + TRAILER, len(b))
             out["consumed"] = off
-            try: out["eq"] = bool(o2 == obj)
+            try: out["eq"] = bool(o2 == want)
             except Exception as e: out["eq"] = "raise:" + type(e).__name__
+            if out["cls"] == "nx_action_learn":
+                out["specs_want"] = self.learn_want(case["spec"])
+                try: out["specs2"] = self.learn_view(o2)
+                except Exception as e: out["specs2"] = "raise:%s: %s" % (type(e).__name__, str(e)[:80])
+            zs = self.zs_view(case["spec"], o2)
+            if zs: out["zs"] = zs
             try: out["repack"] = o2.pack().hex()
             except Exception as e: out["repack"] = "raise:" + type(e).__name__
             try: out["rec2"] = self.nx_dec_view(o2) if out["cls"] in ("nx_flow_mod", "nxt_packet_in") else self.rec_for_model(o2)
@@ -666,6 +821,44 @@ class C01(Check):
         except Exception as e:
             out["outcome"] = "raise:" + type(e).__name__; out["where"] = "unpack"; out["msg"] = str(e)[:120]
         return out
+
+    # -- string fields: what the decoded object must hold
+    def zs_view(self, spec, o2):
+        """[field, wanted str, decoded value] for the string fields of a top-level struct (the decoded value must be the
+        very string, as str)"""
+        w = ZS_WIDTH.get(spec.get("cls"))
+        if not w: return None
+        return [[k, v, getattr(o2, k, None)] for k, v in spec.get("kw", {}).items() if k in w and isinstance(v, str)]
+
+    # -- nx_action_learn: the flow_mod_specs as NXAST_LEARN lays them out, from the description alone
+    def learn_nxm_header(self, name):
+        vendor, field, ln = NXM_SPEC[name]
+        return struct.pack("!L", (vendor << 16) | (field << 9) | ln)
+
+    def learn_spec_parts(self, d):
+        """(header word, source bytes, destination bytes) of one flow_mod_spec description"""
+        n = d["n_bits"]; src, dst = d["src"], d["dst"]
+        sk = {"field": 0, "imm": 1}[src[0]]; dk = {"match": 0, "load": 1, "output": 2}[dst[0]]
+        if sk == 1: sb = int(src[1]).to_bytes(((n + 15) // 16) * 2, "big")          # whole 16-bit words, value right-aligned
+        else: sb = self.learn_nxm_header(src[1]) + struct.pack("!H", src[2])
+        db = b"" if dk == 2 else self.learn_nxm_header(dst[1]) + struct.pack("!H", dst[2])
+        return (sk << 13) | (dk << 11) | n, sb, db
+
+    def learn_descs(self, spec):
+        ds = [x.get("lspec") if isinstance(x, dict) else None for x in spec.get("append", {}).get("spec", [])]
+        return None if any(d is None for d in ds) else ds
+
+    def learn_want(self, spec):
+        ds = self.learn_descs(spec)
+        if ds is None: return None
+        out = []
+        for d in ds:
+            h, sb, db = self.learn_spec_parts(d)
+            out.append([h >> 13, (h >> 11) & 3, h & 1023, sb.hex(), db.hex()])
+        return out
+
+    def learn_view(self, o):
+        return [[f.src.value, f.dst.value, f.n_bits, (f.src.data or b"").hex(), (f.dst.data or b"").hex()] for f in o.spec]
 
     def nxm_entries(self, match):
         return [{"type": e._nxm_type, "value": e._value.hex(), "mask": None if e._mask is None else e._mask.hex(),
@@ -1147,7 +1340,11 @@ class C01(Check):
         if obs.get("pack") is None:
             if expect_raise: return None
             if obs.get("cls") in ABSTRACT: return None
+            # strings handed over as bytes: ofp_phy_port takes them, the stats structures say "… is not string" — a refusal is fine
+            if case.get("zs") == "bytes" and obs.get("outcome") == "raise:RuntimeError" and "is not string" in obs.get("msg", ""): return None
             return "pack raises %s" % obs.get("outcome", "?")[6:]
+        if expect_raise and case.get("why"):
+            return "pack accepts a string its field cannot represent (%s): it must refuse, as it does for an out-of-range integer" % case["why"]
         if expect_raise:
             return "pack succeeds on an object longer than the length field can express"
         n = len(obs["pack"]) // 2
@@ -1174,8 +1371,12 @@ class C01(Check):
             if obs.get("normal") and obs.get("eq") is not True: return "unpack(pack(x)) != x"
             if obs.get("entries") != obs.get("entries_in"): return "decoded (type, value, mask) differ from the canonical form of the original"
             return None
+        for k, want, got in obs.get("zs") or []:
+            if got != want: return "string field %s decodes to %r, the original is %r" % (k, got, want)
         if isinstance(obs.get("eq"), str): return "== raises %s" % obs["eq"][6:]
         if obs.get("eq") is not True: return "unpack(pack(x)) != x"
+        if obs.get("specs_want") is not None and obs.get("specs2") != obs["specs_want"]:
+            return "decoded flow_mod_specs differ from the original: %s" % (obs.get("specs2") if isinstance(obs.get("specs2"), str) else "(src, dst, n_bits, data)")
         if isinstance(obs.get("repack"), str) and obs["repack"].startswith("raise:"): return "re-pack raises %s" % obs["repack"][6:]
         if obs.get("repack") != obs["pack"]: return "re-pack of the decoded object differs from the original bytes"
         return None
@@ -1206,12 +1407,13 @@ class C01(Check):
             return "bytes differ at offset %d from the standard's layout of the object as it was constructed (pack() changed a value it must not change)" % (i // 2)
         return None
 
-    def spec_bytes(self, obj, constructed=False):
+    def spec_bytes(self, obj, constructed=False, desc=None):
         """the object's field values (read by the field names of the standard's structure) laid out as
         Spec/OF10Layouts.lean says — in Python, from the parsed text of that file, so that it works without the Lean build.
         Nested variable-size parts (rest / element lists) are taken as the elements' own pack() bytes: each element class
         is compared with its own structure as a case of its own."""
         cname = type(obj).__name__
+        if cname in ("nx_action_learn", "nx_action_bundle"): return self.nx_action_spec_bytes(obj, desc, constructed)
         if cname in self.nxspec["layouts"]: return self.nx_spec_bytes(obj)
         L = self.spec["table"].get(cname)
         if L is None or cname == "ofp_match": return None          # ofp_match computes its values: hand model
@@ -1234,6 +1436,40 @@ class C01(Check):
                     tb = b"" if v is None else (v.pack() if hasattr(v, "pack") else bytes(v))
             elif tail is not None:
                 tb = b"".join(e.pack() for e in getattr(obj, tail[1]))
+            return spec_parser.encode(L, vals, tb).hex()
+        except Exception as e:
+            return "!%s: %s" % (type(e).__name__, e)
+
+    def nx_action_spec_bytes(self, obj, desc, constructed):
+        """nx_action_learn / nx_action_bundle as nicira-ext.h lays them out (Spec/NXLayouts.lean for the 32 fixed bytes): the
+        flow_mod_specs come from the case's description — header word, immediates in whole 16-bit words, NXM header + offset
+        for fields — and the slaves as 16-bit port numbers; zero bytes up to a multiple of 8.  Nothing here calls the
+        library's pack() or len()."""
+        cname = type(obj).__name__
+        L = self.nxspec["layouts"][cname]
+        try:
+            if desc is None or desc.get("cls") != cname: return None
+            vals = {}
+            if cname == "nx_action_learn":
+                ds = self.learn_descs(desc)
+                if ds is None: return None
+                tb = b""
+                for d in ds:
+                    h, sb, db = self.learn_spec_parts(d)
+                    tb += struct.pack("!H", h) + sb + db
+            else:
+                if constructed and obj.dst is not None and obj.nbits is None: return None     # nbits inferred by pack()
+                sl = []
+                for x in obj.slaves:
+                    sl.append(int(x).to_bytes(2, "big") if isinstance(x, int) else bytes(x._value))
+                tb = b"".join(sl)
+                vals["n_slaves"] = len(obj.slaves)
+                vals["ofs_nbits"] = 0 if obj.dst is None else (obj.offset << 6) | (obj.nbits - 1)
+                vals["dst"] = bytes(4) if obj.dst is None else self.nxm_header(obj.dst)
+                vals["slave_type"] = self.nxm_header(obj.slave_type)
+            tb += bytes((-(32 + len(tb))) % 8)
+            for f in L[0]:
+                if f[0] == "uint" and f[1] not in vals: vals[f[1]] = self.val_num(getattr(obj, f[1]))
             return spec_parser.encode(L, vals, tb).hex()
         except Exception as e:
             return "!%s: %s" % (type(e).__name__, e)
@@ -1277,6 +1513,9 @@ class C01(Check):
         if f.startswith("pack depends on the object's history"): return "%s:pack:depends-on-history" % cls
         if f.startswith("result depends on the object's history"): return "%s:%s:depends-on-history" % (cls, case.get("mode", "seq"))
         if f.startswith("unpack (") or f.startswith("pack differs when"): return "%s:calling-convention:%s" % (cls, f.split("(")[1].split(")")[0] if f.startswith("unpack") else "alt-forms")
+        if f.startswith("pack accepts a string"): return "%s:pack:accepts-unrepresentable-string" % cls
+        if f.startswith("string field"): return "%s:roundtrip:string-differs" % cls
+        if f.startswith("decoded flow_mod_specs"): return "%s:roundtrip:specs-differ" % cls
         if "!=" in f: return "%s:roundtrip:not-equal" % cls
         return "%s:%s" % (cls, f[:40])
 
@@ -1308,6 +1547,69 @@ class C01(Check):
         else:
             c = {"kind": "obj", "spec": spec}
         c.update(extra); return c
+
+    def obj_s(self, rng, spec):
+        """an obj case whose string fields (anywhere inside) are drawn from every class of character, as str or as bytes"""
+        c = self.obj(spice_strings(rng, spec))
+        if c["kind"] != "obj": return c
+        if rng.random() < 0.3: c["zs"] = "bytes"
+        why = zs_unfit(spec)
+        if why: c["expect"] = "raise"; c["why"] = why
+        return c
+
+    def string_cases(self, rng):
+        """every string field x every class of content x (str | bytes), on its own and inside the messages that carry it"""
+        gens = {"ofp_phy_port": ofgen.phy_port, "ofp_table_stats": ofgen.table_stats, "ofp_desc_stats": ofgen.desc_stats}
+        out = []
+        for cname in sorted(ZS_WIDTH):
+            for field, width in sorted(ZS_WIDTH[cname].items()):
+                for mode in ZS_MODES:
+                    for form in ("str", "bytes"):
+                        sp = gens[cname](rng); sp["kw"][field] = g_zs(rng, width, mode)
+                        wraps = [sp]
+                        if cname == "ofp_phy_port" and form == "str":
+                            wraps.append({"cls": "ofp_port_status", "kw": dict(xid=7, reason=1, desc=copy.deepcopy(sp))})
+                            wraps.append({"cls": "ofp_features_reply", "kw": dict(xid=8, datapath_id=1, n_buffers=2, n_tables=3, capabilities=4, actions=5,
+                                          ports=[ofgen.phy_port(rng), copy.deepcopy(sp), ofgen.phy_port(rng)])})
+                        elif cname == "ofp_table_stats" and form == "str":
+                            wraps.append({"cls": "ofp_stats_reply", "kw": dict(xid=9, type=3, flags=0, body=[copy.deepcopy(sp), ofgen.table_stats(rng)])})
+                        elif cname == "ofp_desc_stats" and form == "str" and field in ("mfr_desc", "serial_num"):
+                            wraps.append({"cls": "ofp_stats_reply", "kw": dict(xid=10, type=0, flags=0, body=copy.deepcopy(sp))})
+                        for k, w in enumerate(wraps):
+                            c = {"kind": "obj", "spec": w}
+                            if form == "bytes" or k == 2: c["zs"] = "bytes"
+                            why = zs_unfit(w)
+                            if why: c["expect"] = "raise"; c["why"] = why
+                            out.append(c)
+        return out
+
+    def learn_cases(self, rng):
+        """nx_action_learn: immediates of every width 1..64 (every residue mod 16, both sides of every 16-bit word boundary) and a
+        few wider ones, every source/destination kind, followed by further specs (a mis-sized immediate puts them out of step);
+        spec lists whose byte size covers every residue mod 8; nx_action_bundle with 0..12 slaves"""
+        out = []
+        routes = ["kw", "parts", "infer"]
+        combos = [("imm", "load"), ("imm", "match"), ("imm", "output"), ("field", "match"), ("field", "load"), ("field", "output")]
+        widths = list(range(1, 65)) + [65, 79, 80, 81, 127, 128, 129, 1016, 1017, 1023]
+        for n in widths:
+            for i, (sk, dk) in enumerate(combos):
+                out.append(self.obj(g_learn(rng, [g_lspec(rng, n, sk, dk, routes[(n + i) % 3])])))
+            out.append(self.obj(g_learn(rng, [g_lspec(rng, n, "imm", "load", routes[n % 3]), g_lspec(rng, None, "field", "match"),
+                                              g_lspec(rng, (n * 7) % 64 + 1, "imm", "match"), g_lspec(rng, None, "field", "output")])))
+        for k in range(0, 9):
+            out.append(self.obj(g_learn(rng, [g_lspec(rng, 16, "imm", "load") for _ in range(k)])))            # 10 bytes each
+            out.append(self.obj(g_learn(rng, [g_lspec(rng, 5, "imm", "output") for _ in range(k)])))           # 4 bytes each
+            out.append(self.obj(g_learn(rng, [g_lspec(rng, 33, "imm", "match") for _ in range(k)])))           # 14 bytes each
+        for n in (1, 4, 8, 12, 20, 64):
+            fm = ofgen.message(rng, "flow_mod")
+            fm["kw"]["actions"] = [{"cls": "ofp_action_output", "kw": dict(port=1)}, g_learn(rng, [g_lspec(rng, n, "imm", "load"), g_lspec(rng, None, "field", "output")]),
+                                   {"cls": "ofp_action_output", "kw": dict(port=2)}]
+            out.append(self.obj(fm))
+        for k in range(0, 13):
+            sl = [rng.randint(1, 0xff00) for _ in range(k)]
+            out.append(self.obj({"cls": "nx_action_bundle", "kw": dict(algorithm=k % 2, fields=(k // 2) % 2, basis=rint(rng, U16), slaves=list(sl))}))
+            out.append(self.obj({"cls": "nx_action_bundle", "kw": dict(load=True, dst={"nxmcls": "NXM_NX_REG%d" % (k % 8)}, nbits=rng.randint(1, 32), offset=k % 3, slaves=list(sl))}))
+        return out
 
     def all_class_specs(self, rng):
         """one random spec per codec class / message kind"""
@@ -1358,6 +1660,8 @@ class C01(Check):
             s = ofgen.desc_stats(rng); s["kw"]["mfr_desc"] = "m" * n; s["kw"]["dp_desc"] = "d" * (256 - n); cases.append(self.obj(s))
         for n in (0, 1, 31, 32):
             s = ofgen.desc_stats(rng); s["kw"]["serial_num"] = "s" * n; cases.append(self.obj(s))
+        cases += self.learn_cases(rng)
+        cases += self.string_cases(rng)
         # action lists from empty towards the 64 KiB limit (72 + 8n <= 65535  <=>  n <= 8182)
         act = {"cls": "ofp_action_output", "kw": dict(port=3)}
         for n in (0, 1, 2, 3, 17, 256, 4096, 8182):
@@ -1495,9 +1799,9 @@ class C01(Check):
         n = 600 if tier == "quick" else 100000
         for i in range(n):
             r = rng.random()
-            if r < 0.42: yield self.obj(ofgen.message(rng, small=rng.random() < 0.6))
+            if r < 0.42: yield self.obj_s(rng, ofgen.message(rng, small=rng.random() < 0.6))
             elif r < 0.60:
-                g = rng.choice(list(STRUCT_GEN.values())); yield self.obj(g(rng))
+                g = rng.choice(list(STRUCT_GEN.values())); yield self.obj_s(rng, g(rng))
             elif r < 0.70: yield self.obj(g_any_action(rng))
             elif r < 0.78: yield self.obj(g_nx_action(rng))
             elif r < 0.83: yield self.obj(g_nx_message(rng))
